@@ -73,6 +73,25 @@ Theorem C01_depth_no_spurious_error : forall evs, nesting evs 0 <= S MAX_DEPTH_O
   exists d, depth_run MAX_DEPTH_OF_STMTS 0 evs = Some d.
 Proof. intros. apply depth_no_throw. assumption. Qed.
 
+(** the member loop of a struct/union/enum specifier, with ANY member parser that stays in range, never
+    moves back and moves forward when it succeeds, and the recovery table of ignoreMemberDeclaration as
+    regenerated on this run: it terminates on every token vector (the termination argument — twice the
+    distance to the end — is what the pinned tree lacked: see C01_member_loop_unguarded_diverges) *)
+Theorem C01_member_loop_terminates : forall close_brace toks parse_member cur,
+  close_brace <> EOF_kind -> ends_with EOF_kind toks ->
+  (forall c, c < length toks -> c <= snd (parse_member c) < length toks /\ (fst (parse_member c) = true -> c < snd (parse_member c))) ->
+  cur < length toks ->
+  exists r, member_loop true EOF_kind close_brace ignoreMemberDeclaration_ret ignoreMemberDeclaration_cret toks parse_member (S (2 * length toks)) cur = Some r.
+Proof.
+  intros cb toks pm cur Hcb He Hpm Hc. apply member_loop_terminates; try assumption; [|lia].
+  destruct C01_recovery_tables as [T _]. vm_compute in T. vm_compute. reflexivity.
+Qed.
+
+Theorem C01_member_loop_unguarded_diverges :
+  exists eof close_brace ret cret toks pm, mem eof ret = true /\ ends_with eof toks /\
+    forall fuel, member_loop false eof close_brace ret cret toks pm fuel 1 = None.
+Proof. exact member_loop_unguarded_diverges. Qed.
+
 (** Non-vacuity: "int x = \xf0" (a lead byte of a 4-byte sequence at the very end), and a vector. *)
 Example C01_nonvacuous :
   scan [105; 110; 116; 32; 240]%N 6 0 = Some [1; 2; 3; 4; 5] /\
@@ -90,3 +109,5 @@ Print Assumptions C01_backtrack_in_range.
 Print Assumptions C01_peek_in_bounds.
 Print Assumptions C01_depth_bounded.
 Print Assumptions C01_depth_no_spurious_error.
+Print Assumptions C01_member_loop_terminates.
+Print Assumptions C01_member_loop_unguarded_diverges.
